@@ -169,6 +169,17 @@ def check_getkey_request(stub_args: bytes, origin: str):
     if got != want:
         return ("getkey-request-fields", f"library decoded {str(got)[:200]}, reference {str(want)[:200]}")
     again = g.pack()
+    # the request object is a plain mutable dataclass: after changing an argument the stub must be the encoding of the new arguments
+    try:
+        g2 = _gkdi.GetKey.unpack(stub_args)
+        g2.pack()
+        g2.l0_key_id, g2.l1_key_id, g2.l2_key_id = 7, 8, 9
+        g2.target_sd = g2.target_sd + b"\x01"
+        r3 = rpce.ndr64_parse_getkey_request(g2.pack())
+        if (r3["sd"], r3["l0"], r3["l1"], r3["l2"]) != (ref["sd"] + b"\x01", 7, 8, 9):
+            return ("getkey-request-stale-encoding", "after changing the arguments of a GetKey object pack() still produced the encoding of the old arguments")
+    except rpce.WireError as e:
+        return ("getkey-request-stale-encoding", f"re-packed GetKey after an argument change is not valid NDR64: {e!r}")
     want_bytes = rpce.ndr64_getkey_request(ref["sd"], ref["root_key_id"], ref["l0"], ref["l1"], ref["l2"], referent=ref["referent"] or 0x20000)
     if again != want_bytes:
         # referent ids are free; compare through the decoder
@@ -203,10 +214,16 @@ def check_getkey_response(stub: bytes, origin: str):
             raise MonitorHarnessError(repr(e))
         return ("lib-encoded-envelope-rejected", f"group key envelope encoded by the library is rejected by the independent decoder: {e!r}")
     try:
-        g = _gkdi.GetKey.unpack_response(stub)
+        rxbuf = bytearray(stub)  # decoded from a receive buffer that is reused afterwards
+        g = _gkdi.GetKey.unpack_response(rxbuf)
+        try:
+            rxbuf[:] = b"\xEE" * len(rxbuf)
+        except BufferError:
+            return ("decoded-envelope-aliases-receive-buffer", "the decoded envelope pins the caller's receive buffer (exported memoryview)")
     except Exception as e:  # noqa: BLE001
         return ("well-formed-getkey-reply-not-decoded", repr(e))
     got = envelope_fields_lib(g)
+    got = {k: (bytes(v) if isinstance(v, memoryview) else v) for k, v in got.items()}
     if got != want:
         diff = [k for k in want if got.get(k) != want[k]]
         return ("envelope-fields", f"library decoded the envelope differently in {diff} (envelope length {len(ref['envelope'])}, mod 8 = {len(ref['envelope']) % 8})")
